@@ -191,6 +191,8 @@ impl<T: DictionaryAccess> MorphemeList<T> {
     }
 
     pub fn copy_slice(&self, start: usize, end: usize, out: &mut Self) {
+        // copied nodes are meaningful only together with the input they were produced from
+        out.assign_input(self);
         let out_data = out.nodes.mut_data();
         out_data.extend_from_slice(&self.nodes.data[start..end]);
     }
